@@ -232,9 +232,10 @@ def run_case(ctx, case, rec, d):
                 continue
             ch = st['chi2']
             rec.outcome(tuple(np.round(np.minimum(ch, 1e300), 4)))
-            if n >= 2 and ch[perm.index(0)] == ch[perm.index(1)]:
+            # (ties up to rounding: whether two copies of a model get bit-identical chi^2 is up to the implementation's arithmetic)
+            if n >= 2 and abs(ch[perm.index(0)] - ch[perm.index(1)]) <= 1e-9 * (1 + abs(ch[perm.index(0)])):
                 rec.cls('tied-chi2-duplicates')
-            if n >= 3 and mode == '2d' and ch[perm.index(2)] != ch[perm.index(0)] and abs(ch[perm.index(2)] - ch[perm.index(0)]) <= 1e-7 * abs(ch[perm.index(0)]):
+            if n >= 3 and mode == '2d' and abs(ch[perm.index(2)] - ch[perm.index(0)]) <= 1e-7 * abs(ch[perm.index(0)]):
                 rec.cls('near-tied-chi2')
             big = ch[(ch >= 1e30) & np.isfinite(ch)]
             if len(big):
